@@ -1,4 +1,4 @@
-import MtailVerif.Proofs.ScopeUndecl
+import MtailVerif.Proofs.ScopeDup
 /-! # C24 — invalid programs are rejected with a positioned error
 
     `Scope.check` (Model/Scope.lean) mirrors the checker's symbol handling; regular-expression
@@ -10,7 +10,9 @@ import MtailVerif.Proofs.ScopeUndecl
     stands (`bad_literal_regex_rejected`, also over all ASTs, decorator definitions included); so is
     a name that no declaration of the program introduces, used as an identifier or as a decorator
     (`undeclared_name_rejected`: an invariant of the checker's whole state says nothing can resolve
-    the name, whatever was declared, captured by `next` or instantiated before); and each of the other defect
+    the name, whatever was declared, captured by `next` or instantiated before); so is a name that
+    two statements of one block declare (`redeclared_name_rejected`: every visit leaves the scope
+    stack as it found it, so the first declaration is still there when the second arrives); and each of the other defect
     classes is reported by its clause whenever the walk reaches the offending node
     (`*_reported`: the lookup fails / the name is taken / the pattern is too long or does not parse /
     a declaration leaves its scope unused), each with the offending node's or declaration's own
@@ -56,6 +58,17 @@ theorem bad_literal_regex_rejected (cfg : Cfg) (prog : Node) (h : hasBadRegex cf
 theorem undeclared_name_rejected (cfg : Cfg) (prog : Node) (name : String)
     (hd : declares name prog = false) (hm : mentions name prog = true) : check cfg prog ≠ [] := by
   have := undecl_fires cfg name prog hd hm {} rfl (inv_init name)
+  unfold check
+  intro he
+  rw [he] at this
+  simp at this
+
+/-- **redeclared name**: two statements of one block — metric declarations, `const`s, `def`s, in
+    any combination — that declare the same name make the checker reject the program, whatever
+    stands between them and wherever the block is (top level, a condition's block or its else
+    branch, a decorator definition, a decorated block). -/
+theorem redeclared_name_rejected (cfg : Cfg) (prog : Node) (h : hasDup prog = true) : check cfg prog ≠ [] := by
+  have := dup_fires cfg prog h {} rfl
   unfold check
   intro he
   rw [he] at this
@@ -158,6 +171,13 @@ example : declares "zz" (.stmts (.cons (.decl { kind := 1, name := "a", hidden :
       (.cons (.cond (.un .match (.patexpr (.patlit [120] p0) []) p0 .unk)
         (.stmts (.cons (.un .inc (.id "zz" ⟨1, 2, 3⟩ .unk) p0 .unk) .nil)) .nil) .nil)))).map (·.cls) = [.undeclared, .unused .var] := by
   refine ⟨by decide, by decide, by decide⟩
+
+/-- `counter a` / `a++` / `const a /x/`: the block declares `a` twice, across kinds -/
+example : hasDup (.stmts (.cons (.decl { kind := 1, name := "a", hidden := false, exported := "", keys := [], limit := 0, buckets := [] } p0)
+    (.cons (.un .inc (.id "a" p0 .unk) p0 .unk) (.cons (.const (.id "a" ⟨2, 6, 6⟩ .unk) (.patexpr (.patlit [120] p0) []) []) .nil)))) = true ∧
+  (check cfg0 (.stmts (.cons (.decl { kind := 1, name := "a", hidden := false, exported := "", keys := [], limit := 0, buckets := [] } p0)
+    (.cons (.un .inc (.id "a" p0 .unk) p0 .unk) (.cons (.const (.id "a" ⟨2, 6, 6⟩ .unk) (.patexpr (.patlit [120] p0) []) []) .nil))))).map (·.cls) = [.redeclConst] := by
+  refine ⟨by decide, by decide⟩
 
 /-- the same `next` inside a decorator definition is fine, and the decorated block sees `$0` -/
 example : check cfg0 (.stmts (.cons (.decodecl "d" (.stmts (.cons (.cond (.un .match (.patexpr (.patlit [120] p0) []) p0 .unk)
